@@ -308,7 +308,7 @@ def scan : Mode → List Char → Except Exc (List Char × List String)
 structure Fmt where
   fstr : List Char
   args : List String
-  deriving Repr
+  deriving Repr, DecidableEq
 
 /-- `format_context(format_str)`, lines 146-202; `none` = the argument is not a string -/
 def formatInit (fs : Option String) : Except Exc Fmt :=
